@@ -48,7 +48,7 @@ func (c *Chain) mintAbs(lastHeight int64) mintState {
 }
 
 func randMintParams(r *rand.Rand, stipend string) minttypes.Params {
-	tpb := []int64{0, 1, 2, 3, 7, 100, 4_200_000, 10_000_000_000}[r.Intn(8)]
+	tpb := []int64{0, 1, 2, 3, 7, 100, 4_200_000, 10_000_000_000, 1_000_000_000_000_000_000, 2_000_000_000_000_000_000, 92_233_720_368_547_759, 9_223_372_036_854_775_807}[r.Intn(12)]
 	dec := []int64{0, 6, 5_255_999, 5_256_000, 5_256_001, 52_560_000, 3_000_000, 1_000_000_000}[r.Intn(8)]
 	// ratios with sum <= 100
 	a := int64(r.Intn(101))
